@@ -110,7 +110,8 @@ class RecProcess(Process):
     """
     defaults = {'run_id': 0, 'ts': [1.0], 'ts_mode': 'invocation',
                 'cond': None, 'shared': ['sum'], 'emit': True,
-                'meta': False, 'salt': 0, 'port_order': None, 'record': True}
+                'meta': False, 'salt': 0, 'port_order': None, 'record': True,
+                'twin': False}
 
     def __init__(self, parameters=None):
         super().__init__(parameters)
@@ -136,9 +137,17 @@ class RecProcess(Process):
         if record:
             for v in shared_names:
                 shared[v]['_updater'] = recording_updater(rid, 'shared:' + v)
-        if order == 'reversed':
-            return {'shared': shared, 'own': own}
-        return {'own': own, 'shared': shared}
+        schema = ({'shared': shared, 'own': own} if order == 'reversed'
+                  else {'own': own, 'shared': shared})
+        if self.parameters['twin']:
+            # two ports of this process wired to ONE store, the shared
+            # variable nested one level below them
+            for port in ('ta', 'tb'):
+                leaf = {'_default': 0, '_emit': emit}
+                if record:
+                    leaf['_updater'] = recording_updater(rid, 'twin:t')
+                schema[port] = {'sub': {'t': leaf}}
+        return schema
 
     def calculate_timestep(self, states):
         ctx = CTX.get(self.parameters['run_id'])
@@ -190,6 +199,9 @@ class RecProcess(Process):
         }
         if self.parameters['meta']:
             update['own']['last'] = seen
+        if self.parameters['twin']:
+            update['ta'] = {'sub': {'t': token}}
+            update['tb'] = {'sub': {'t': token}}
         return update
 
 
